@@ -502,7 +502,9 @@ package jet
 //@ func (*Runtime).evalSafeWriter
 //@   props C07 C13 C10 C01 C12 C14
 //@   requires RtOK(st) && node != nil && WFCmd(node) && RvValid(term) && RvTypeOf(term) == safeWriterType
+//@   requires [a-nil-safewriter-is-never-installed] {C12,C01} RvKind(term) == 19 && !RvIsNil(term)
 //@   modifies @Interp
+//@   callsite fastprinter.PrintValue * requires [the-installed-safewriter-can-be-called] {C12,C01} as(w, "*escapeWriter").safeWriter != nil
 //@   callsite fastprinter.PrintValue * requires [safewriter-output-bypasses-the-escaper-once] {C01} istype(w, "*escapeWriter") && as(w, "*escapeWriter").rawWriter == st.escapeeWriter.Writer && fresh(as(w, "*escapeWriter"))
 //@   callsite fastprinter.PrintValue count 2
 //@   loop 0 invariant SameS(st) && RtOK(st) && 0 <= i
@@ -953,6 +955,7 @@ package jet
 //@ axiom forallT(v, "reflect.Value", RvKind(v) == 19 && !RvIsNil(v) && istype(RvInterface(v), "Func") ==> as(RvInterface(v), "Func") != nil)
 //@ axiom forallT(t, "reflect.Type", forallT(u, "reflect.Type", TKind(t) == 23 && TKind(TElem(t)) == 8 && TKind(u) == 24 ==> TConv(t, u)))
 //@ axiom forallT(v, "reflect.Value", RvValid(v) && RvTypeOf(v) == safeWriterType ==> istype(RvInterface(v), "SafeWriter"))
+//@ axiom forallT(v, "reflect.Value", RvKind(v) == 19 && !RvIsNil(v) && istype(RvInterface(v), "SafeWriter") ==> as(RvInterface(v), "SafeWriter") != nil)
 // (a nil value of an interface type - a struct field of type Renderer that was never set - has that static type
 // and holds nothing: Interface() is nil and implements no interface)
 //@ axiom forallT(v, "reflect.Value", RvValid(v) && TImpl(RvTypeOf(v), rendererType) && !(RvKind(v) == 20 && RvIsNil(v)) ==> implementsI(RvInterface(v), "Renderer"))
